@@ -129,10 +129,42 @@ def work(case):
     return out, nontrivial, fail, quiescent
 
 
-def pool_half(ctx, res):
-    """the multithreaded handler: several actions in flight at once, responses collected later"""
+def pool_one(ed, nact, workers):
+    """nact completed runs on the multithreaded handler, all actions in flight before any response is collected"""
     import threading
     import time
+    gate = threading.Event()
+    engine, handler, log = SE.make_engine(ed, handler_kind="thread", workers=workers, gate=gate)
+    try:
+        for _ in range(nact):
+            engine.receiver.add_data(1)
+        for _ in range(nact + 2):
+            engine.update()                      # all actions dispatched, none finished
+        gate.set()
+        deadline = time.time() + 10
+        while time.time() < deadline:
+            engine.update()
+            if len(log["aevents"]) >= nact and sum(SE.sizes(engine, handler)) == 0:
+                break
+            time.sleep(0.01)
+        for _ in range(5):
+            engine.update()
+        time.sleep(0.05)
+        engine.update()
+    finally:
+        gate.set()
+        handler.close()
+    got = (len(log["complex"]), len(log["execs"]), len(log["aevents"]), handler.size())
+    if got != (nact, nact, nact, 0):
+        return dict(signature="pool-handler-response-lost-or-stranded",
+                    what="%d completed runs on the multithreaded handler with %d workers: complex events %d, executions %d, "
+                         "action events %d, responses left in the handler queue %d" % ((nact, workers) + got),
+                    case=dict(ed=ed, ops=[["add", 1]] * nact, handler="multithreading", workers=workers), detail=None)
+    return None
+
+
+def pool_half(ctx, res):
+    """the multithreaded handler: several actions in flight at once, responses collected later"""
     rng = ctx.rng
     for k in range(12 if ctx.quick else 80):
         nact = rng.randint(2, 5)
@@ -140,35 +172,11 @@ def pool_half(ctx, res):
         cfg = dict(phen=[(1, [G.pattern(1, [G.blk([("and", ("kind", 0), ("deq", 1))], "R", 1)])])], maxcache=0, idbase=1000)
         ed = dict(cfg=cfg, tr=0, td=0, tp=0, tf=rng.choice([0, 1, 2]), early=rng.random() < 0.5, local_only=True,
                   datagen=[], act=[(1, (1, True, 9))])
-        gate = threading.Event()
-        engine, handler, log = SE.make_engine(ed, handler_kind="thread", workers=workers, gate=gate)
-        try:
-            for _ in range(nact):
-                engine.receiver.add_data(1)
-            for _ in range(nact + 2):
-                engine.update()                      # all actions dispatched, none finished
-            gate.set()
-            deadline = time.time() + 10
-            while time.time() < deadline:
-                engine.update()
-                if len(log["aevents"]) >= nact and sum(SE.sizes(engine, handler)) == 0:
-                    break
-                time.sleep(0.01)
-            for _ in range(5):
-                engine.update()
-            time.sleep(0.05)
-            engine.update()
-        finally:
-            gate.set()
-            handler.close()
+        f = pool_one(ed, nact, workers)
         res.note_case(("pool", k, nact, workers), True)
         res.count("pool_batches")
-        got = (len(log["complex"]), len(log["execs"]), len(log["aevents"]), handler.size())
-        if got != (nact, nact, nact, 0):
-            res.failures.append(dict(signature="pool-handler-response-lost-or-stranded",
-                                     what="%d completed runs on the multithreaded handler with %d workers: complex events %d, executions %d, "
-                                          "action events %d, responses left in the handler queue %d" % ((nact, workers) + got),
-                                     case=dict(ed=ed, ops=[["add", 1]] * nact, handler="multithreading", workers=workers), detail=None))
+        if f:
+            res.failures.append(f)
 
 
 def run(ctx, res):
@@ -202,6 +210,17 @@ def replay(obj):
         print(obj)
         return 0
     ed = case["ed"]
+    if case.get("handler") == "multithreading":
+        cfg, _ = pC12.norm_case(dict(cfg=ed["cfg"], ops=[]))
+        for _ph, ps in cfg["phen"]:
+            for p_ in ps:
+                for b in p_["blocks"]:
+                    b["preds"] = [tuple(tuple(y) if isinstance(y, list) else y for y in x) for x in b["preds"]]
+        ed["cfg"] = cfg
+        ed["act"] = [(k, tuple(a)) for k, a in ed["act"]]
+        f = pool_one(ed, len(case["ops"]), case["workers"])
+        print("oracle        :", f["what"] if f else "one complex event, one execution, one action event per completed run; nothing stranded")
+        return 1 if f else 0
     cfg, _ = pC12.norm_case(dict(cfg=ed["cfg"], ops=[]))
     ed["cfg"] = cfg
     ed["act"] = [(k, tuple(a)) for k, a in ed["act"]]
